@@ -598,7 +598,60 @@ def name_tables():
     return "\n".join(out), {"rows": len(fun_arms) + len(ty_arms), "fun_arms": fun_arms, "type_arms": len(ty_arms), "type_keys": [a for a, _ in ty_arms], "shadow_sep": sep, "source_spellings": sorted(spell)}
 
 
-TABLES = {"NameTables": name_tables, "StubTables": stub_tables, "OpTables": op_tables, "ClassTables": class_tables, "LexTables": lex_tables, "CoreTables": core_tables, "ConvertTables": convert_tables, "AnnotateTables": annotate_tables}
+
+# ------------------------------------------------------------------------------------------------
+# Tail transformations of the desugaring stage (append_assign / append_ret)
+# ------------------------------------------------------------------------------------------------
+def tail_tables():
+    src = re.sub(r"//[^\n]*", "", read("src/generate/convert/mod.rs"))
+
+    def arms(fname, sig):
+        body = block_after(src, r"fn %s\(%s\) -> Core \{" % (fname, sig), fname)
+        # variants with an arm that calls the function recursively
+        desc = []
+        for m in re.finditer(r"Core::([A-Za-z]+) \{[^}]*\} =>", body):
+            # the text of this arm: up to the next `Core::X {..} =>` at arm level or the guard arm
+            start = m.end()
+            nxt = re.search(r"\n        (Core::[A-Za-z]+ \{|[a-z_]+ if |_ =>)", body[start:])
+            arm = body[start:start + nxt.start()] if nxt else body[start:]
+            if re.search(r"\b%s\b" % fname, arm) and m.group(1) not in desc:
+                desc.append(m.group(1))
+        guard = re.search(r"\n        (\w+) if (skip_\w+)\(\1\) => \w+\.clone\(\),", body)
+        if not guard:
+            raise TranslateError("convert/mod.rs: %s has no skip guard arm" % fname)
+        if not re.search(r"\n        _ => Core::(VarDef|Return) \{", body):
+            raise TranslateError("convert/mod.rs: %s has no wrapping default arm" % fname)
+        return desc, guard.group(2)
+    a_desc, a_guard = arms("append_assign", r"core: &Core, assign_to: &Core, name: &Option<Name>, imp: &mut Imports")
+    r_desc, r_guard = arms("append_ret", r"core: &Core")
+
+    def skips(fn):
+        m = re.search(r"fn %s\(core: &Core\) -> bool \{(.*?)\n\}" % fn, src, re.S)
+        if not m:
+            raise TranslateError("convert/mod.rs: %s not found" % fn)
+        out = re.findall(r"Core::([A-Za-z]+) \{", m.group(1))
+        for inner in re.findall(r"\b(skip_\w+)\(core\)", m.group(1)):
+            if inner != fn:
+                out = skips(inner) + out
+        return out
+    a_skips, r_skips = skips(a_guard), skips(r_guard)
+    if len(a_desc) < 3 or len(r_desc) < 3:
+        raise TranslateError("convert/mod.rs: recursive arms of append_assign / append_ret not understood")
+    lst = lambda xs: "[" + ", ".join('"%s"' % x for x in xs) + "]"
+    out = ["-- GENERATED by tools/translate.py from generate/convert/mod.rs (append_assign, append_ret, skip_assign, skip_return) — do not edit",
+           "namespace MV", "",
+           "/-- Core variants `append_assign` descends into (arms that call it recursively), in source order -/",
+           "def assignDescends : List String := " + lst(a_desc),
+           "/-- Core variants `append_ret` descends into -/",
+           "def retDescends : List String := " + lst(r_desc),
+           "/-- variants `append_assign` leaves alone (`skip_assign`) -/",
+           "def assignSkips : List String := " + lst(a_skips),
+           "/-- variants `append_ret` leaves alone (`skip_return`) -/",
+           "def retSkips : List String := " + lst(r_skips), "", "end MV", ""]
+    return "\n".join(out), {"rows": len(a_desc) + len(r_desc), "assign_descends": a_desc, "ret_descends": r_desc, "assign_skips": a_skips, "ret_skips": r_skips}
+
+
+TABLES = {"TailTables": tail_tables, "NameTables": name_tables, "StubTables": stub_tables, "OpTables": op_tables, "ClassTables": class_tables, "LexTables": lex_tables, "CoreTables": core_tables, "ConvertTables": convert_tables, "AnnotateTables": annotate_tables}
 
 
 def main(argv):
